@@ -1015,4 +1015,61 @@ growth_harness!(#[kani::unwind(8)] u22_trigger_reindex_queues_the_old_index, {
 	}
 });
 
+
+// ================================================================== U15c: lookups on the write path search the current index, then every queued older index
+pub(crate) static mut SI_N: usize = 0;
+pub(crate) static mut SI_BITS: [u8; 4] = [0; 4];
+pub(crate) static mut SI_HIT: [bool; 4] = [false; 4];
+pub(crate) fn stub_search_index<'a>(_key: &Key, index: &'a IndexTable, _tables: &'a Tables, _log: &LogWriter) -> Result<Option<(&'a IndexTable, usize, Address)>> {
+	unsafe {
+		assert!(SI_N < 4, "verif: too many index searches");
+		let n = SI_N;
+		SI_BITS[n] = index.id.index_bits();
+		SI_N += 1;
+		if SI_HIT[n] {
+			Ok(Some((index, n, Address::from_u64(1000 + n as u64))))
+		} else {
+			Ok(None)
+		}
+	}
+}
+growth_harness!(#[kani::unwind(8)] #[kani::stub(super::HashColumn::search_index, stub_search_index)] u15_search_all_indexes_order, {
+	let col = std::mem::ManuallyDrop::new(mk_growing_column(0));
+	unsafe {
+		SI_N = 0;
+		SI_HIT = [kani::any(), kani::any(), kani::any(), false];
+	}
+	let key: Key = kani::any();
+	let overlays: &'static RwLock<crate::log::LogOverlays> = Box::leak(Box::new(RwLock::new(crate::log::LogOverlays::with_columns(0))));
+	let w: &'static mut crate::log::LogWriter<'static> = Box::leak(Box::new(crate::log::LogWriter::new(overlays, 7)));
+	let tl = col.tables.read();
+	let rl = col.reindex.read();
+	let r = ok(HashColumn::search_all_indexes(&key, &tl, &rl, &*w));
+	let (h0, h1, h2) = unsafe { (SI_HIT[0], SI_HIT[1], SI_HIT[2]) };
+	let n = unsafe { SI_N };
+	// order of consultation: current (18 bits), then the queue front to back (16, 17)
+	assert!(unsafe { SI_BITS[0] } == 18, "U15.search_all.current_index_first");
+	if n > 1 {
+		assert!(unsafe { SI_BITS[1] } == 16, "U15.search_all.then_oldest_queued_index");
+	}
+	if n > 2 {
+		assert!(unsafe { SI_BITS[2] } == 17, "U15.search_all.then_every_later_queued_index");
+	}
+	match r {
+		None => assert!(false, "U15.search_all.no_error"),
+		Some(Some((t, sub, a))) => {
+			// the first index that has the key wins; no index before it had it
+			let first = if h0 { 0 } else if h1 { 1 } else { 2 };
+			assert!(h0 || h1 || h2, "U15.search_all.hit_only_if_some_index_has_the_key");
+			assert!(sub == first && a.as_u64() == 1000 + first as u64 && n == first + 1, "U15.search_all.returns_first_index_holding_the_key");
+		},
+		Some(None) => {
+			assert!(!h0 && !h1 && !h2, "U15.search_all.absent_only_if_no_index_has_the_key");
+			assert!(n == 3, "U15.search_all.every_queued_index_is_consulted_before_reporting_absent");
+		},
+	}
+	std::mem::forget(tl);
+	std::mem::forget(rl);
+});
+
 /*@@GENERATED:column@@*/
